@@ -283,7 +283,7 @@ def worker(ctx):
 def run(env):
     quick = env.tier == "quick"
     stats = core.run_workers(__name__, "worker", PROP, env.tier, env.seed, env.driver, env.hooks_on,
-                             45 if quick else 500, {"units_per_worker": 400 if quick else 6000})
+                             45 if quick else 500, {"units_per_worker": 800 if quick else 6000})
     return core.finish(PROP, env.tier, env.seed, LEVEL, stats, env.t0, RULE, min_conclusive=300 if quick else 5000,
                        assumptions=["termination on unbounded input is restated as: go returns Ok before the endless reader's cap, having pulled at most 64 KiB past the deciding value (FIFO: plus pipe buffer and BufReader)",
                                     "the deciding value is located with the same build's unlimited runs on finite prefixes (differential)"])
